@@ -15,16 +15,7 @@ def job_roundtrip(ses, proto, fkind, akind):
     E = encrypt_paths(w, ex, inp, fkind, akind)
     tag = '%s footer=%s assertion=%s' % (proto, fkind, akind)
     n_ok = 0
-    for se, re_ in E:
-        # the core builder object (self) is left as it was: a second token from the same builder is built from the same payload / footer / assertion
-        if is_ok(re_) and getattr(se, 'self_cell', None) is not None:
-            after = se.store[se.self_cell]; names = w.fields('Paseto'); fa = dict(zip(names, after[3])); fb = dict(zip(names, se.self_before[3]))
-            if after[1] == 'Havocked': fa = {n_: after for n_ in names}      # the function that received `&mut self` was abstracted: every field is unknown afterwards
-            for fld in names:
-                if fld in ('header',): continue
-                if not same_value(fa[fld], fb[fld]):
-                    ses.violation('%s: try_encrypt/try_sign changes the builder\'s `%s` (%s -> %s): the next token built from it differs' % (tag, fld, str(fb[fld])[:50], str(fa[fld])[:50]), {},
-                                  {'kind': 'core_builder_reuse', 'proto': proto, 'fkind': fkind, 'akind': akind})
+    builder_frame_check(ses, w, E, tag, proto, fkind, akind)
     for se, re_ in E:
         if not is_ok(re_):
             rec = ses.obligation('%s: encrypt/sign path %s is infeasible for valid inputs' % (tag, describe(re_)), se.pc,
@@ -80,6 +71,8 @@ def run(ses, protos=None):
     jobs += upper.roundtrip_jobs(protos, ses.tier)
     from .. import coreapi
     jobs.append((coreapi.job_core_api, ()))        # newtype constructors, builder(), setters, Clone: what the caller writes reaches the entry point unchanged
+    from .. import kani as _kani
+    jobs.append((_kani.job_le64, ()))        # the PAE length prefix is a summary in the SMT runs: Kani checks le64 itself on the compiled code (all 2^64 inputs)
     run_jobs(ses, jobs)
     ses.trusted_base = TRUSTED
     ses.assumptions = ['key is 32 bytes, nonce seed has the length the PasetoNonce constructors produce (32; 24 or 32 for v2)',
